@@ -63,7 +63,7 @@ def explore(sem, root, env=None, max_depth=12):
                     go(cb, cenv, via + ((body.path, s.line),), depth + 1, None, caps, (vis, bb))
             t = blk.term
             if t.kind == "call":
-                g = w.prog.bodies.get(t.callee.path.split("::<")[0]) or w.prog.bodies.get(_strip(t.callee.path))
+                g = w.prog.bodies.get(_strip(t.callee.dpath)) or w.prog.bodies.get(_strip(t.callee.path))
                 if g is not None and g.is_fn():
                     genv = {}
                     gargs = []
